@@ -761,8 +761,10 @@ def triggers(graph, fmt, base=None, bind=None):
                 if v == v and v not in (float("inf"), float("-inf")) and float("%e" % v) != v:
                     out.append("F15")
                     break
-    # F15d, F15e, F15f, F15h, F15o (Turtle family) and F15m, the non-IRI half of F15k (pretty-xml) were repaired in
-    # /repo (0b40a911, ec2790c6, c1984258, fdf8d16b, 2521fbb8, d4c8e316, 83d416d7): no trigger any more
+        if any(x[3] == XSD + "decimal" and is_canonical(x[1], x[3]) and not any(c in x[1] for c in ".eE") for x in lits):
+            out.append("F15d")
+    # F15e, F15f, F15h, F15o (Turtle family) and F15m, the non-IRI half of F15k (pretty-xml) were repaired in
+    # /repo (ec2790c6, c1984258, fdf8d16b, 2521fbb8, d4c8e316, 83d416d7): no trigger any more
     if fmt in TURTLE_FAMILY and any(t[0] == ["I", NIL] and t[1][1] in (FIRST, REST) for t in graph):
         out.append("F15r")
     if fmt == "pretty-xml":
@@ -1216,7 +1218,7 @@ class TtlString(Suite):
 # ---------------------------------------------------------------- graph level: conformance only
 TRIGGER_NUM = {"F15": 1, "F15b": 2, "F15c": 3, "F15d": 4, "F15e": 5, "F15f": 6, "F15g": 7, "F15h": 8,
                "F15i": 9, "F15j": 10, "F15k": 11, "F15l": 12, "F15m": 13, "F15n": 14, "F15o": 15, "F15p": 16, "F15r": 17}
-FIXED_FINDINGS = {"F15b", "F15d", "F15e", "F15f", "F15h", "F15m", "F15o"}   # repaired in /repo
+FIXED_FINDINGS = {"F15b", "F15e", "F15f", "F15h", "F15m", "F15o"}   # repaired in /repo
 BINDS = [None, None, [["ex", "http://e/"], ["ns", "http://e/ns#"]], [["", "http://e/"]], [["ex", "http://e/ns#"]]]
 BASES = [None, None, None, "http://e/", "http://e/", "http://other.org/"]
 
@@ -1495,7 +1497,128 @@ class HextRow(Suite):
                         yield {"mode": "parse", "row": ["http://e/a", "http://e/p", f2, f3, f4, f5]}
 
 
-SUITES = [NtText(), TtlString(), HextRow(), RoundTrip()]
+
+# ---------------------------------------------------------------- K4 (first part): isValidList / doList
+from rdflib.plugins.serializers.turtle import TurtleSerializer as _TurtleSer  # noqa: E402
+from rdflib.plugins.serializers.longturtle import LongTurtleSerializer as _LongTurtleSer  # noqa: E402
+
+TL_TERMS = {1: URIRef(FIRST), 2: URIRef(REST), 3: URIRef(NIL), 4: URIRef("http://e/p"), 5: URIRef(TYPE)}
+TL_TERMS.update({i: URIRef("http://e/n%d" % i) for i in range(10, 15)})
+TL_TERMS.update({i: BNode("b%d" % i) for i in range(20, 26)})
+TL_TERMS.update({30: Literal(""), 31: Literal("x"), 32: Literal(0), 33: Literal(1)})
+TL_FALSY = [30, 32]
+TL_BACK = {tkey_: i for i, tkey_ in ((i, key(t)) for i, t in TL_TERMS.items())}
+
+
+class TtlList(Suite):
+    name = "ttl_islist"
+    imports = "From RV Require Import Codec.TurtleList."
+    case_ty = "tl_case"
+    obs_ty = "tl_obs"
+    model = "tl_model"
+    oeq = "tl_obs_eqb"
+    spec = "tl_spec"
+    kf = "tl_kf"
+    kf_ids = {1: "F15r"}
+    corr = "serializers/turtle.py + longturtle.py: isValidList, doList (with RecursiveSerializer.preprocess reference counts)"
+    quick_n = 600
+    thorough_n = 8000
+    timeout_s = 1.0
+
+    # case = {"g": [[s,p,o]...], "ser": [ids], "head": id, "long": bool}
+    def gen(self, rng, i):
+        g = []
+        cells = rng.sample(range(20, 26), rng.choice([1, 2, 3, 4]))
+        members = [10, 11, 12, 20, 21, 31, 30, 33, 3]
+        for k, c in enumerate(cells):
+            g.append([c, 1, rng.choice(members)])
+            r = rng.random()
+            nxt = cells[k + 1] if k + 1 < len(cells) else 3
+            if r < 0.70:
+                g.append([c, 2, nxt])
+            elif r < 0.80:
+                g.append([c, 2, rng.choice(cells)])            # cycle / shared
+            elif r < 0.88:
+                g.append([c, 2, rng.choice([30, 31, 32, 10, 11])])   # odd tail
+            elif r < 0.94:
+                g.append([c, 4, rng.choice(members)])          # a property instead of rdf:rest
+            # else: no rest at all
+        for _ in range(rng.choice([0, 0, 1, 2, 3])):
+            k = rng.random()
+            if k < 0.35:
+                g.append([rng.choice([10, 11, 12]), 4, rng.choice(cells)])       # references
+            elif k < 0.5:
+                g.append([rng.choice(cells), rng.choice([1, 2, 4, 5]), rng.choice(members)])   # extra property on a cell
+            elif k < 0.62:
+                g.append([3, rng.choice([1, 2, 4]), rng.choice(cells + [10, 3])])  # rdf:nil with properties
+            elif k < 0.8:
+                g.append([rng.choice([10, 11]), rng.choice([1, 2, 4]), rng.choice(members + cells)])
+            else:
+                g.append([rng.choice(cells), 2, rng.choice(cells)])
+        if rng.random() < 0.3:
+            rng.shuffle(g)
+        seen, gg = set(), []
+        for t in g:
+            if tuple(t) not in seen:
+                seen.add(tuple(t))
+                gg.append(t)
+        ser = [c for c in cells if rng.random() < 0.12]
+        return {"g": gg, "ser": ser, "head": rng.choice(cells + cells + [10, 3]), "long": rng.random() < 0.3}
+
+    def run_impl(self, case):
+        g = Graph()
+        for t in case["g"]:
+            g.add(tuple(TL_TERMS[x] for x in t))
+        ser = (_LongTurtleSer if case["long"] else _TurtleSer)(g)
+        ser.preprocess()
+        for x in case["ser"]:
+            ser._serialized[TL_TERMS[x]] = True
+        v = bool(ser.isValidList(TL_TERMS[case["head"]]))
+        if not v:
+            return [False, []]
+        pairs, pending = [], []
+        ser.path = lambda item, position, newline=False: pending.append(item)
+        ser.subjectDone = lambda cell: pairs.append([TL_BACK[key(cell)], TL_BACK[key(pending.pop())]])
+        ser.write = lambda text: None
+        ser.doList(TL_TERMS[case["head"]])
+        return [True, pairs]
+
+    def on_timeout(self, case):
+        return [True, None]
+
+    def coq_case(self, case):
+        g = clist(ctuple(cN(a), cN(b), cN(c)) for a, b, c in case["g"])
+        return "{| tg := %s; tser := %s; tfalsy := %s; thead := %s |}" % (
+            g, clist(cN(x) for x in case["ser"]), clist(cN(x) for x in TL_FALSY), cN(case["head"]))
+
+    def coq_obs(self, obs):
+        return ctuple("Some " + cbool(obs[0]), copt(obs[1], lambda l: clist(ctuple(cN(a), cN(b)) for a, b in l)))
+
+    def nontrivial(self, case, obs):
+        return len(case["g"]) >= 2
+
+    def features(self, case, obs):
+        return {"accepted_as_list": int(obs[0]), "members_written": len(obs[1] or []), "doList_timeout": int(obs[1] is None),
+                "longturtle": int(case["long"])}
+
+    def shrink(self, case):
+        for i in range(len(case["g"])):
+            yield dict(case, g=case["g"][:i] + case["g"][i + 1:])
+        if case["ser"]:
+            yield dict(case, ser=[])
+
+    def sweep(self):
+        """all graphs of at most 3 triples over two cells, two predicates (first, rest) + p, objects cell/nil/IRI/falsy literal"""
+        trip = [[s_, p_, o] for s_ in (20, 21, 3) for p_ in (1, 2, 4) for o in (20, 21, 3, 10, 30)]
+        for n in (1, 2, 3):
+            for combo in itertools.combinations(trip, n):
+                if n == 3 and sum(1 for t in combo if t[0] == 3) > 1:
+                    continue
+                for ser in ([], [21]):
+                    yield {"g": [list(t) for t in combo], "ser": ser, "head": 20, "long": False}
+
+
+SUITES = [NtText(), TtlString(), HextRow(), TtlList(), RoundTrip()]
 
 TRUSTED = [
     "Coq 8.16.1 kernel and standard library; coqc -Q coq RV",
